@@ -7,7 +7,7 @@ from .c13 import forwarding, ont_subset
 
 META = {
     'title': 'Similarity metrics equal their formulas, are symmetric and bounded',
-    'technique': 'sibling rule over the six metrics (first-statement dominance), error-path shape, ONT subset, formula anchors',
+    'technique': 'sibling rule over the six metrics (first-statement dominance), error-path shape, ONT subset, documented formulas as effect specifications, raising calls evaluated on every returning path (outcome tables)',
     'explanation': (
         'Formula values, symmetry and numeric bounds over all graphs are runtime floats and are NOT decided. Decided clauses: '
         'R1 each of the six public metrics calls _check_if_pos_compatible(synset1.pos, synset2.pos) before anything else, and the '
